@@ -90,7 +90,12 @@ def exec_plan(bdir, plan, timeout=60, flavour_env=None, verbose=False):
     m = re.search(r"^END -?\d+ (.*)$", out, re.M)
     if m and rc == 0:
         r = json.loads(m.group(1))
-        return dict(kind="ok", hash=r["hash"], sigs=[v["sig"] for v in r.get("viol", [])], viol=r.get("viol", []), out=out, err=err, res=r)
+        viol = list(r.get("viol", []))
+        if "ThreadSanitizer" in err:
+            for sg in tsan_signatures(plan.get("prop"), err, B.repo_root()):
+                blk = err[err.find("WARNING: ThreadSanitizer"):][:1200]
+                viol.append(dict(sig=sg, prop=plan.get("prop"), op=-1, detail="ThreadSanitizer (behind the deterministic scheduler): " + " | ".join(l.strip() for l in blk.splitlines()[:14])))
+        return dict(kind="ok", hash=r["hash"], sigs=[v["sig"] for v in viol], viol=viol, out=out, err=err, res=r)
     sig, op = crash_signature(plan.get("prop"), out, err, B.repo_root())
     return dict(kind="crash", hash=None, sigs=[sig], viol=[dict(sig=sig, prop=plan.get("prop"), op=op, detail=_crash_excerpt(err))], out=out, err=err)
 
@@ -104,6 +109,26 @@ def _crash_excerpt(err):
         if len(keep) >= 8:
             break
     return " | ".join(keep)[:900]
+
+
+def tsan_signatures(prop, err, repo):
+    """One signature per ThreadSanitizer report in stderr: the innermost library function of each of the two accesses."""
+    sigs = []
+    for blk in re.split(r"(?=WARNING: ThreadSanitizer:)", err):
+        m = re.match(r"WARNING: ThreadSanitizer: ([a-z \-]+)", blk)
+        if not m:
+            continue
+        kind = m.group(1).strip().replace(" ", "-")
+        fns = []
+        for part in re.split(r"\n\s*\n", blk)[:2]:
+            fn = None
+            for f, loc in re.findall(r"#\d+ (\S+) (\S+?):\d+", part):
+                if loc.startswith(repo + "/") or ("/src/" in loc and "/verif/" not in loc and "libsanitizer" not in loc):
+                    fn = f
+                    break
+            fns.append(fn or "?")
+        sigs.append("%s/tsan/%s/%s" % (prop, kind, "+".join(sorted(set(fns)))))
+    return sorted(set(sigs))
 
 
 def gen_plan(bdir, prop, tier, seed, index):
@@ -127,6 +152,7 @@ class Batch:
         self.viol = {}         # signature -> list of (index, violation dict)
         self.samples = []
         self.schedules, self.switches = set(), 0
+        self.tsan_runs = []
         self.faults, self.probes = {}, {}
         self.steps = 0
         self.crashes = []      # (index, out, err, kind)
@@ -174,6 +200,8 @@ class Batch:
                     n_end += 1
                     with self.lock:
                         self.results[idx] = (r["hash"], r["ph"], r["nt"])
+                        if r.get("tsan"):
+                            self.tsan_runs.append(idx)
                         if "sh" in r:
                             self.schedules.add(r["sh"])
                             self.switches += r.get("sw", 0)
